@@ -148,4 +148,4 @@ def run_hits(scenario, ch, install, exprs, plugins=(), python_plugin=False, cfg=
 
 
 def wire_of(ctx, es):
-    return ctx["wire"].get(format(es.id, "032x"))
+    return ctx.get("wire", {}).get(format(es.id, "032x"))
